@@ -1,6 +1,7 @@
 package main
 
 import (
+	"go/constant"
 	"fmt"
 	"go/ast"
 	"go/token"
@@ -3808,8 +3809,59 @@ func ruleSyncJoinsItsInputs(c *Ctx, rule string) {
 	}
 	ok, nTests := false, 0
 	detail := []string{}
+	// a helper of the package that findOptimalPool hands the node being placed and whose first result it returns as it is,
+	// under nothing but the helper's own "found" result: the candidate loop moved out
+	helperNode := map[*ssa.Function]string{}
+	fnNodeParam := nodeParam
+	for _, cs := range callsIn(fn) {
+		h := cs.common.StaticCallee()
+		call := cs.value()
+		if h == nil || call == nil || h.Pkg != fn.Pkg || len(h.Blocks) == 0 || h.Signature.Results().Len() != 2 || call.Referrers() == nil {
+			continue
+		}
+		var ex0, ex1 *ssa.Extract
+		for _, r := range *call.Referrers() {
+			if ex, isEx := r.(*ssa.Extract); isEx {
+				if ex.Index == 0 {
+					ex0 = ex
+				} else {
+					ex1 = ex
+				}
+			}
+		}
+		if ex0 == nil || ex1 == nil {
+			continue
+		}
+		handsOn := false
+		for _, r := range returnsOf(fn) {
+			if len(r.Results) != 1 || r.Results[0] != ssa.Value(ex0) {
+				continue
+			}
+			for _, iff := range controllingIfs(r) {
+				if iff.Cond == ssa.Value(ex1) && iff.Block() == call.Block() && (iff.Block().Succs[0] == r.Block()) {
+					handsOn = true
+				}
+				break
+			}
+		}
+		if !handsOn {
+			continue
+		}
+		for i, a := range cs.common.Args {
+			if p, isP := resolve(a).(*ssa.Parameter); isP && p.Parent() == fn && p.Name() == nodeParam && i < len(h.Params) {
+				helperNode[h] = h.Params[i].Name()
+			}
+		}
+	}
 	for _, g := range family(L, fn) {
 		if g.Parent() != nil {
+			continue
+		}
+		if hn, isHelper := helperNode[g]; isHelper {
+			nodeParam = hn
+		} else if g == fn {
+			nodeParam = fnNodeParam
+		} else {
 			continue
 		}
 		for _, b := range g.Blocks {
@@ -3817,7 +3869,7 @@ func ruleSyncJoinsItsInputs(c *Ctx, rule string) {
 				continue
 			}
 			iff, isIf := b.Instrs[len(b.Instrs)-1].(*ssa.If)
-			if !isIf || g != fn {
+			if !isIf {
 				continue
 			}
 			cond, neg := iff.Cond, false
@@ -3865,8 +3917,13 @@ func ruleSyncJoinsItsInputs(c *Ctx, rule string) {
 				}
 				cur = next
 			}
-			if ret == nil || !bare || len(ret.Results) != 1 {
+			if ret == nil || !bare || (len(ret.Results) != 1 && !(g != fn && len(ret.Results) == 2)) {
 				continue
+			}
+			if len(ret.Results) == 2 {
+				if k, isK := ret.Results[1].(*ssa.Const); !isK || k.Value == nil || k.Value.String() != "true" {
+					continue
+				}
 			}
 			// ... the candidate under examination: an element of a local []int list, loaded in the test's block or in the
 			// returning block (nothing else was asked about this candidate before)
@@ -3902,7 +3959,7 @@ func ruleSyncJoinsItsInputs(c *Ctx, rule string) {
 			if !isIA || !strings.HasSuffix(ia.X.Type().String(), "[]int") {
 				continue
 			}
-			if _, isParam := resolve(ia.X).(*ssa.Parameter); isParam {
+			if _, isParam := resolve(ia.X).(*ssa.Parameter); isParam && g == fn {
 				continue
 			}
 			inPath := ld.Block() == b
@@ -6542,6 +6599,261 @@ func ruleLhsOnePerResult(c *Ctx, rule string) {
 	if n == 0 {
 		c.ok(rule, "buildLhsExpressions does not build the list by appends in a loop; rule not applied", "shape not recognised")
 	}
+}
+
+// reachableWithout: can control get from block `from` to block `to` without passing through block `via`?
+func reachableWithout(from, to, via *ssa.BasicBlock) bool {
+	seen := map[*ssa.BasicBlock]bool{via: true}
+	var walk func(b *ssa.BasicBlock) bool
+	walk = func(b *ssa.BasicBlock) bool {
+		if b == to {
+			return true
+		}
+		if seen[b] {
+			return false
+		}
+		seen[b] = true
+		for _, s := range b.Succs {
+			if walk(s) {
+				return true
+			}
+		}
+		return false
+	}
+	return walk(from)
+}
+
+// ruleWireImportByExactPath: a file's wire import is the import whose path IS "github.com/google/wire". Every return of
+// FindWireImport that reports an import (a result other than "") lies on the true side of an equality test between a string
+// and that constant - directly or in a one-result predicate of the package whose every return is such a test. A looser
+// match (a suffix, a package name) makes an unrelated `.../wire` import of another package the "wire file": with a pattern
+// over several packages the converter's home package is then the wrong one and the output imports its own package.
+func ruleWireImportByExactPath(c *Ctx, rule string) {
+	L := c.L
+	fn := resolveRole(c, migPkg, "(*Parser).FindWireImport")
+	if fn == nil {
+		c.undecided(rule, "FindWireImport", "not found")
+		return
+	}
+	c.seen(fnName(fn))
+	const want = "github.com/google/wire"
+	// exact: v decides "the path is the constant"; the second result tells on which value of v the two are equal
+	var exact func(v ssa.Value, d int) (bool, bool)
+	exact = func(v ssa.Value, d int) (bool, bool) {
+		switch x := resolve(v).(type) {
+		case *ssa.UnOp:
+			if x.Op == token.NOT {
+				ok, eq := exact(x.X, d)
+				return ok, !eq
+			}
+		case *ssa.BinOp:
+			if x.Op != token.EQL && x.Op != token.NEQ {
+				return false, false
+			}
+			for _, side := range []ssa.Value{x.X, x.Y} {
+				if k, ok := resolve(side).(*ssa.Const); ok && k.Value != nil && k.Value.Kind() == constant.String && constant.StringVal(k.Value) == want {
+					return true, x.Op == token.EQL
+				}
+			}
+		case *ssa.Call:
+			h := x.Common().StaticCallee()
+			if h == nil || h.Pkg != fn.Pkg || len(h.Blocks) == 0 || d >= 2 || h.Signature.Results().Len() != 1 {
+				return false, false
+			}
+			rets := returnsOf(h)
+			eqAll, first := false, true
+			for _, r := range rets {
+				ok, eq := exact(r.Results[0], d+1)
+				if !ok || (!first && eq != eqAll) {
+					return false, false
+				}
+				eqAll, first = eq, false
+			}
+			return len(rets) > 0, eqAll
+		}
+		return false, false
+	}
+	n := 0
+	for _, r := range returnsOf(fn) {
+		if len(r.Results) != 1 {
+			continue
+		}
+		if k, isK := r.Results[0].(*ssa.Const); isK && k.Value != nil && k.Value.Kind() == constant.String && constant.StringVal(k.Value) == "" {
+			continue
+		}
+		n++
+		ok := false
+		for _, iff := range controllingIfs(r) {
+			isExact, eqOnTrue := exact(iff.Cond, 0)
+			t, other := iff.Block().Succs[0], iff.Block().Succs[1]
+			if !eqOnTrue {
+				t, other = other, t
+			}
+			if isExact && (t == r.Block() || t.Dominates(r.Block())) && len(t.Preds) == 1 && !reachableWithout(other, r.Block(), iff.Block()) {
+				ok = true
+			}
+		}
+		c.check(ok, rule, fnName(fn)+":wire-import-by-exact-path", L.pos(r.Pos()),
+			"an import is taken for the wire import only when its path equals \"github.com/google/wire\" (not a suffix or a package name: another package's `.../wire` import would make it the wire package of a multi-package run)", "the return reporting an import is not on the true side of an equality test with the constant path")
+	}
+	c.floor(rule, "returns of FindWireImport that report an import", n, 1)
+}
+
+// ruleRootPerMode: ResolvePath consults the home directory only for a user-level installation and the working directory
+// only for a project-level one. Asking for both up front makes each mode fail on the other's root (no $HOME in a container,
+// a removed working directory) although the documented destination is perfectly determined. Decided with the truth table
+// of the way to each os.UserHomeDir / os.Getwd call (or to the call of the package helper that makes it) over ResolvePath's
+// flag parameter.
+func ruleRootPerMode(c *Ctx, rule string) {
+	L := c.L
+	fn := resolveRole(c, llmPkg, "ResolvePath")
+	if fn == nil {
+		c.undecided(rule, "ResolvePath", "not found")
+		return
+	}
+	c.seen(fnName(fn))
+	flag := ""
+	for _, p := range fn.Params {
+		if p.Type().String() == "bool" {
+			flag = "param:" + p.Name()
+		}
+	}
+	// which root calls can a call site of ResolvePath lead to (through helpers of the package, two levels)
+	var rootsOf func(f *ssa.Function, d int) map[string]bool
+	rootsOf = func(f *ssa.Function, d int) map[string]bool {
+		out := map[string]bool{}
+		for _, cs := range callsIn(f) {
+			if cs.callee == "os.UserHomeDir" || cs.callee == "os.Getwd" {
+				out[cs.callee] = true
+			}
+			if h := cs.common.StaticCallee(); h != nil && h.Pkg == f.Pkg && len(h.Blocks) > 0 && d < 2 {
+				for k := range rootsOf(h, d+1) {
+					out[k] = true
+				}
+			}
+		}
+		return out
+	}
+	n := 0
+	for _, cs := range callsIn(fn) {
+		roots := map[string]bool{}
+		if cs.callee == "os.UserHomeDir" || cs.callee == "os.Getwd" {
+			roots[cs.callee] = true
+		} else if h := cs.common.StaticCallee(); h != nil && h.Pkg == fn.Pkg && len(h.Blocks) > 0 {
+			roots = rootsOf(h, 0)
+		}
+		for _, root := range []string{"os.UserHomeDir", "os.Getwd"} {
+			if !roots[root] {
+				continue
+			}
+			n++
+			rows, ids, err := truthTable(L, fn.Blocks[0], cs.instr, nil)
+			if err != "" {
+				c.undecided(rule, "ResolvePath:table", err)
+				continue
+			}
+			has := false
+			for _, id := range ids {
+				if id == flag {
+					has = true
+				}
+			}
+			wantUser := root == "os.UserHomeDir"
+			bad := ""
+			for _, row := range rows {
+				if row.reached && has && row.atoms[flag].b != wantUser {
+					bad = rowString(row, ids)
+				}
+			}
+			what := "the working directory is consulted only for a project-level installation"
+			if wantUser {
+				what = "the home directory is consulted only for a user-level installation"
+			}
+			c.check(flag != "" && has && bad == "", rule, "ResolvePath:"+root+":only-in-its-mode", L.pos(cs.instr.Pos()), what,
+				fmt.Sprintf("flag atom %q decides the way to the call: %v; counterexample: %s", flag, has, bad))
+		}
+	}
+	c.floor(rule, "ways from ResolvePath to os.UserHomeDir / os.Getwd", n, 2)
+}
+
+// ruleNoExitBypassesClose: when the injector has goroutines, a provider-call statement always ends with the statement that
+// closes the done-channels of its results: no return of (*InjectorProviderCallStmt).Stmt can be reached on the "has chains"
+// side of the flag without passing the call that builds the close statement. A shortcut that emits nothing for some kind of
+// provider ("a constant needs no statement") also drops its close, while the variable specs still make the channel and the
+// consumers in other goroutines still wait for it. Paths are walked with the flag held true (an `if flag` met again is
+// followed on its true side only).
+func ruleNoExitBypassesClose(c *Ctx, rule string) {
+	L := c.L
+	fn := genFn(c, rule, "(*InjectorProviderCallStmt).Stmt")
+	closeFn := resolveRole(c, genPkg, "(*InjectorProviderCallStmt).generateChannelCloseStatement")
+	if fn == nil || closeFn == nil {
+		return
+	}
+	var closeCall ssa.Instruction
+	for _, cs := range callsIn(fn) {
+		if calleeIsFn2(cs, closeFn) {
+			closeCall = cs.instr
+		}
+	}
+	if closeCall == nil {
+		c.ok(rule, "InjectorProviderCallStmt.Stmt: the close statement is not built by a direct call here; rule not applied", "shape not recognised")
+		return
+	}
+	// the flag: the condition on whose true side the close statement is built
+	var flag ssa.Value
+	for _, iff := range controllingIfs(closeCall) {
+		t := iff.Block().Succs[0]
+		if t == closeCall.Block() || t.Dominates(closeCall.Block()) {
+			flag = iff.Cond
+		}
+		break
+	}
+	if flag == nil {
+		c.ok(rule, "InjectorProviderCallStmt.Stmt: the close statement is built unconditionally", "no guard")
+		return
+	}
+	n := 0
+	for _, b := range fn.Blocks {
+		iff, ok := b.Instrs[len(b.Instrs)-1].(*ssa.If)
+		if !ok || iff.Cond != flag {
+			continue
+		}
+		// walk from the true side
+		seen := map[*ssa.BasicBlock]bool{}
+		var bad *ssa.Return
+		var walk func(x *ssa.BasicBlock)
+		walk = func(x *ssa.BasicBlock) {
+			if seen[x] || bad != nil {
+				return
+			}
+			seen[x] = true
+			if x == closeCall.Block() {
+				return
+			}
+			for _, in := range x.Instrs {
+				if r, isR := in.(*ssa.Return); isR {
+					bad = r
+					return
+				}
+			}
+			if i2, isIf := x.Instrs[len(x.Instrs)-1].(*ssa.If); isIf && i2.Cond == flag {
+				walk(x.Succs[0])
+				return
+			}
+			for _, sx := range x.Succs {
+				walk(sx)
+			}
+		}
+		walk(b.Succs[0])
+		n++
+		pos := L.pos(iff.Pos())
+		why := "every way from the true side to a return passes the call that builds the close statement"
+		if bad != nil {
+			pos, why = L.pos(bad.Pos()), "a return is reached with goroutines present without the close statement"
+		}
+		c.check(bad == nil, rule, fnName(fn)+":no-exit-bypasses-close", pos, "with goroutines in the injector every exit of a provider-call statement passes the construction of its close statement", why)
+	}
+	c.floor(rule, "tests of the has-chains flag in InjectorProviderCallStmt.Stmt", n, 1)
 }
 
 // rulePackagesNotComparedByName: two packages are the same package when they are the same *types.Package (or have the same
